@@ -121,7 +121,7 @@ def step (st : St) (toks : List String) : St × String :=
         | some (off, rest) =>
           match htlcs? 1000 rest with
           | some (recv, []) =>
-            let i : Info := ⟨true, tc, th, off, recv, fr⟩
+            let i : Info := Info.new true th tc off recv fr
             applyRes st (signCounterparty st.policy st.setup st.chain st.es n (2 * n + pv) i)
           | _ => (st, "bad-op")
       | "hold", n :: fr :: th :: tc :: rest =>
@@ -131,7 +131,7 @@ def step (st : St) (toks : List String) : St × String :=
         | some (off, rest) =>
           match htlcs? 1000 rest with
           | some (recv, [sigok]) =>
-            let i : Info := ⟨false, th, tc, off, recv, fr⟩
+            let i : Info := Info.new false tc th off recv fr
             applyRes st (validateHolderPhase2 st.policy st.setup st.chain st.es n i (b sigok))
           | _ => (st, "bad-op")
       | "revoke", [n] =>
